@@ -121,7 +121,7 @@ class HarnessError(Exception):
     pass
 
 
-def run_sharded(binary, args, start, runs, nproc):
+def run_sharded(binary, args, start, runs, nproc, digests=None):
     """Single-threaded worker processes over disjoint run ranges (needed when a violation kills the process:
     the fault handler reports the run and operation in flight). Returns (merged output, faults)."""
     import re
@@ -133,6 +133,8 @@ def run_sharded(binary, args, start, runs, nproc):
         if n <= 0:
             break
         a = [binary] + [str(x) for x in args] + ["--start", str(s0), "--runs", str(n), "--threads", "1"]
+        if digests:
+            a += ["--digests", "%s.%d" % (digests, i)]
         procs.append((s0, n, subprocess.Popen(a, stdout=subprocess.PIPE, stderr=subprocess.PIPE, text=True)))
     merged = None
     faults = []
@@ -170,6 +172,13 @@ def run_sharded(binary, args, start, runs, nproc):
             if out.get("dispatches_by_host_level"):
                 for kk, vv in out["dispatches_by_host_level"].items():
                     merged["dispatches_by_host_level"][kk] = merged["dispatches_by_host_level"].get(kk, 0) + vv
+    if digests:
+        with open(digests, "w") as out_f:
+            for i in range(nproc):
+                part = "%s.%d" % (digests, i)
+                if os.path.exists(part):
+                    out_f.write(open(part).read())
+                    os.unlink(part)
     if merged is not None:
         merged["distinct_states"] = len(merged["state_hashes"])
         merged["state_hashes"] = sorted(merged["state_hashes"])
@@ -679,7 +688,8 @@ def run_property(pid, tier):
         args = ["run", "--scenario", leg.scenario, "--mix", leg.mix, "--seed", sd, "--runs", runs, "--threads", NCPU,
                 "--max-ops", leg.max_ops, "--profile", leg.profile, "--host-build", leg.hb, "--replay-dir", replay_dir,
                 "--states", "1"] + leg.extra
-        if leg.sharded:
+        if True:  # every leg runs as single-threaded worker processes over disjoint run ranges: the history of a worker
+            # process is then a deterministic run sequence, so a failure that leans on earlier runs replays from its batch prefix
             args = [a for a in args]
             i = args.index("--threads")
             del args[i:i + 2]
@@ -1209,13 +1219,12 @@ def run_cross(pid, cross, tier, sd, replay_dir, absorb, violations, known):
         binary = build(hb, cross.profile)
         bins[hb] = binary
         dfile = os.path.join(tmp, "digests-%s-%s-%s-%d.txt" % (pid, cross.scenario, hb, os.getpid()))
-        args = ["run", "--scenario", cross.scenario, "--mix", cross.mix, "--seed", sd, "--runs", runs, "--threads", NCPU,
+        args = ["run", "--scenario", cross.scenario, "--mix", cross.mix, "--seed", sd,
                 "--max-ops", cross.max_ops, "--profile", cross.profile, "--host-build", hb, "--replay-dir", replay_dir,
-                "--states", "1", "--digests", dfile]
-        rc, out, err = run_worker(binary, args)
-        if out is None or rc not in (0, 1):
-            log(err[-4000:])
-            raise HarnessError("worker %s on %s failed (rc=%s)" % (cross.name(), hb, rc))
+                "--states", "1"]
+        out, faults = run_sharded(binary, args, 0, runs, NCPU, digests=dfile)
+        if out is None or faults:
+            raise HarnessError("worker %s on %s failed (%s)" % (cross.name(), hb, faults[:1]))
         absorb(pid, cross.name() + "@" + hb, out)
         digs[hb] = read_digests(dfile)
         os.unlink(dfile)
